@@ -4,7 +4,8 @@ CONSTANTS
   OneLen = 4
   MaxLen = 3
   CompLen = 2
-  BigN = 0
-  BigM = 0
+  NBig = 8
+  BigN = 5
+  BigM = 3
 INVARIANTS KernelEq AlgebraLaws CompKernel CompLaws Emit
 CHECK_DEADLOCK FALSE
